@@ -369,6 +369,25 @@ def oracle_formats(case):
         for a, n in zip(atoms, nums):
             a["resseq"] = n
         info["negative-numbers"] = min(nums) < 0
+    modres = []
+    if case.get("thio"):
+        # drawn uridines become 4-thiouridines (4SU: S4 in place of O4, HETATM records) - a modified residue whose base
+        # cannot be told from its atom names alone. The PDB text announces it in MODRES records (parent U), as deposited
+        # files do; the mmCIF carries the same atoms under the same names
+        order = []
+        for a in atoms:
+            key = (a["chain"], a["resseq"], a["icode"])
+            if a["resname"] == "U" and key not in order:
+                order.append(key)
+        chosen = {order[t % len(order)] for t in case["thio"]} if order else set()
+        for a in atoms:
+            if (a["chain"], a["resseq"], a["icode"]) in chosen:
+                a["resname"], a["record"] = "4SU", "HETATM"
+                if a["name"] == "O4":
+                    a["name"], a["element"] = "S4", "S"
+        for ch, num, ic in sorted(chosen):
+            modres.append(f"MODRES 1XXX 4SU {ch} {num:>4}{ic or ' '}   U  4-THIOURIDINE-5'-MONOPHOSPHATE")
+        info["modres"] = bool(chosen)
     request = None
     if case.get("ensemble"):
         # the molecule as one model of an ensemble: the other models are the same atoms blown up by 25 % about the
@@ -397,7 +416,7 @@ def oracle_formats(case):
     results = {}
     structs = {}
     try:
-        for ext, text in (("pdb", atomtab.emit_pdb(atoms, always_model=bool(request))), ("cif", atomtab.emit_cif(atoms, case.get("null", "?")))):
+        for ext, text in (("pdb", "".join(m + "\n" for m in modres) + atomtab.emit_pdb(atoms, always_model=bool(request))), ("cif", atomtab.emit_cif(atoms, case.get("null", "?")))):
             p = f"{base}.{ext}"
             with open(p, "w") as f:
                 f.write(text)
@@ -621,6 +640,8 @@ def classify(case):
             labs.append("formats-with-negative-author-numbers")
         if info.get("five-digit-serials"):
             labs.append("formats-with-five-digit-serials")
+        if info.get("modres"):
+            labs.append("formats-with-4-thiouridines-announced-by-MODRES")
         if info.get("ensemble"):
             labs.append("formats-of-an-ensemble-" + ("later" if info.get("later-model-requested") else "first") + "-model-requested")
     if info.get("undecided"):
@@ -662,7 +683,8 @@ def st_formats(files):
                                   "offset": st.sampled_from([0, 0, -210, -500, -60, 1000]),
                                   "first_serial": st.sampled_from([0, 0, 9001, 90000]), "hetatm": st.sampled_from([None, "nonstandard", "every-third-residue"]),
                                   "ensemble": st.one_of(st.none(), st.tuples(st.integers(2, 3), st.integers(0, 2)).map(list)),
-                                  "model_numbers": st.sampled_from([None, None, [3, 1, 2], [2, 5, 7]])})
+                                  "model_numbers": st.sampled_from([None, None, [3, 1, 2], [2, 5, 7]]),
+                                  "thio": st.sampled_from([None, None, [0], [1, 4], [2, 3, 7]])})
 
 
 def st_altloc(files):
@@ -690,7 +712,7 @@ def plan(tier, seed):
         specs += [{"kind": "formats-moved", "files": corpus.SMALL + corpus.MEDIUM, "examples": 150, "seed": seed * 1000 + 500 + k} for k in range(16)]
         specs += [{"kind": "altloc-order", "files": corpus.SMALL + corpus.MEDIUM, "examples": 80, "seed": seed * 1000 + 600 + k} for k in range(16)]
         specs += [{"kind": "disorder-copies", "files": corpus.SMALL + corpus.MEDIUM, "examples": 60, "seed": seed * 1000 + 650 + k} for k in range(8)]
-        specs += [{"kind": "aligned", "files": [f], "max_contacts": 400, "axes": 3, "seed": seed} for f in corpus.SMALL + corpus.MEDIUM[:4]]
+        specs += [{"kind": "aligned", "files": [f], "max_contacts": 90, "axes": 1, "seed": seed + k} for f in corpus.SMALL for k in (0, 1)]
     return specs
 
 
